@@ -1,3 +1,89 @@
-From Ristretto Require Import Base.Word Sketch.Sketch.
-Theorem C18_placeholder : nib_get 0 0 = 0%N.
-Proof. reflexivity. Qed.
+(* C18 — Access-frequency estimates never under-count, saturate, and age by halving.
+   Statements only; every theorem is closed by [exact] of a lemma proved in Sketch/*Proofs.v. *)
+From Ristretto Require Import Base.Word Sketch.Sketch Sketch.SketchProofs Bloom.Bloom Bloom.BloomProofs
+  Sketch.TinyLFU Sketch.TinyLFUProofs.
+Open Scope N_scope.
+
+(* A 4-bit counter increment: the addressed counter becomes min 15 (v+1) ... *)
+Theorem C18_row_inc_target : forall r n, row_wf r -> n < 2 * lenN r ->
+  row_get (row_inc r n) n = N.min 15 (row_get r n + 1).
+Proof. exact row_inc_same. Qed.
+
+(* ... and every other counter (in particular the other half of the same byte) is unchanged. *)
+Theorem C18_row_inc_others : forall r n m, row_wf r -> m <> n -> row_get (row_inc r n) m = row_get r m.
+Proof. exact row_inc_other. Qed.
+
+(* An aging reset halves every counter independently, rounding down. *)
+Theorem C18_row_reset : forall r n, row_wf r -> row_get (row_reset r) n = row_get r n / 2.
+Proof. exact row_reset_get. Qed.
+
+(* next2Power: smallest power of two >= x, on the whole range where the int64 arithmetic does not wrap;
+   the sketch built for NumCounters >= 2 has that many counters per row. *)
+Theorem C18_next2power : forall x, (1 <= x <= 2 ^ 62)%Z ->
+  exists k, (0 <= k <= 62 /\ next2power x = 2 ^ k /\ x <= 2 ^ k /\ 2 ^ k < 2 * x)%Z.
+Proof. exact next2power_spec. Qed.
+
+Theorem C18_table_size : forall nc seeds, (2 <= nc <= 2 ^ 62)%Z ->
+  exists k, (1 <= k <= 62)%Z /\ next2power nc = (2 ^ k)%Z /\ (nc <= 2 ^ k < 2 * nc)%Z /\
+    sk_wf (sketch_new nc seeds) /\ sk_mask (sketch_new nc seeds) = Z.to_N (2 ^ k - 1) /\
+    Forall (fun r => 2 * lenN r = Z.to_N (2 ^ k)) (sk_rows (sketch_new nc seeds)).
+Proof. exact sketch_new_wf. Qed.
+
+(* Count-min sketch: n recorded accesses of k, interleaved with any other accesses, any seeds:
+   the estimate is at least min 15 (old + n); never above 15; recording never lowers any estimate. *)
+Theorem C18_sketch_lower : forall s hs k, sk_wf s ->
+  N.min 15 (sk_estimate s k + N.of_nat (count_occ N.eq_dec hs k)) <= sk_estimate (fold_left sk_increment hs s) k.
+Proof. exact sk_incs_lower. Qed.
+
+Theorem C18_sketch_monotone : forall s h k, sk_wf s -> sk_estimate s k <= sk_estimate (sk_increment s h) k.
+Proof. exact sk_increment_mono. Qed.
+
+Theorem C18_sketch_upper : forall s k, sk_wf s -> sk_rows s <> [] -> sk_estimate s k <= 15.
+Proof. exact sk_estimate_le15. Qed.
+
+(* TinyLFU (sketch + doorkeeper): between two aging resets, after n recorded accesses the estimate is
+   at least min 16 (old + n) >= min 15 n, and never exceeds 16. *)
+Theorem C18_lower : forall t hs k, tl_wf t ->
+  (tl_incrs t + Z.of_nat (length hs) < tl_resetAt t)%Z ->
+  N.min 16 (tl_estimate t k + N.of_nat (count_occ N.eq_dec hs k)) <= tl_estimate (tl_push t hs) k.
+Proof. intros t hs k Hwf Hno. rewrite tl_push_no_reset by exact Hno. exact (tl_bumps_lower t hs k Hwf). Qed.
+
+Theorem C18_upper : forall t k, tl_wf t -> tl_estimate t k <= 16.
+Proof. exact tl_estimate_le16. Qed.
+
+Theorem C18_monotone : forall t h k, tl_wf t -> tl_estimate t k <= tl_estimate (tl_bump t h) k.
+Proof. exact tl_bump_mono. Qed.
+
+(* The access that reaches resetAt: every counter halved (independently), first-access marks forgotten,
+   increment counter zeroed. *)
+Theorem C18_reset_step : forall t k, (tl_resetAt t <= tl_incrs t + 1)%Z ->
+  tl_increment t k = tl_reset (tl_bump t k).
+Proof. exact tl_increment_reset. Qed.
+
+Theorem C18_reset_effect : forall t, tl_wf t -> 1 <= bl_locs (tl_door t) ->
+  tl_incrs (tl_reset t) = 0%Z /\
+  (forall h, bl_has (tl_door (tl_reset t)) h = false) /\
+  (forall i n, (i < length (sk_rows (tl_freq t)))%nat ->
+     row_get (nth i (sk_rows (tl_freq (tl_reset t))) []) n = row_get (nth i (sk_rows (tl_freq t)) []) n / 2).
+Proof. exact tl_reset_spec. Qed.
+
+Theorem C18_clear : forall t, tl_wf t -> 1 <= bl_locs (tl_door t) ->
+  tl_incrs (tl_clear t) = 0%Z /\ forall h, tl_estimate (tl_clear t) h = 0.
+Proof. exact tl_clear_spec. Qed.
+
+(* Non-vacuity: a concrete sketch/tinyLFU satisfying the hypotheses, with saturated counters. *)
+Example C18_nonvacuous :
+  let s := sketch_new 8 [1; 2; 3; 4] in
+  sk_wf s /\ sk_rows s <> [] /\
+  sk_estimate (fold_left sk_increment (repeat 7 20) s) 7 = 15 /\
+  sk_estimate (sk_reset (fold_left sk_increment (repeat 7 20) s)) 7 = 7.
+Proof.
+  split; [|split; [discriminate|split; vm_compute; reflexivity]].
+  split; [reflexivity|]. repeat constructor; vm_compute; try reflexivity;
+    repeat constructor; reflexivity.
+Qed.
+
+Print Assumptions C18_row_inc_target.
+Print Assumptions C18_next2power.
+Print Assumptions C18_lower.
+Print Assumptions C18_reset_effect.
